@@ -258,10 +258,7 @@ func (s SepCfg) law() *SepLaw {
 			// swallow the error and yield "" with entropy 0
 			return constSep("")
 		}
-		if len(m.Req) > 0 || m.Emptied > 0 {
-			if m.Emptied > 0 {
-				return nil
-			}
+		if len(m.Req) > 0 {
 			p := m.SuccessProb()
 			if p.Sign() == 0 {
 				return constSep("")
